@@ -470,7 +470,7 @@ def gen_import_case(draw, with_prog=None):
         if env:
             choices += ["use"] * 4
         if renv:
-            choices += ["ruse"] * 2
+            choices += ["ruse"] * 4
         choices += ["hyR", "localreq", "own"]
         c = draw(st.sampled_from(choices))
         if i == 0:
